@@ -996,11 +996,8 @@ func Quota(w *load.World, c *core.Collector) {
 			if !ok {
 				continue
 			}
-			bo, ok := ifi.Cond.(*ssa.BinOp)
-			if !ok {
-				continue
-			}
-			if ssax.Prov(bo.X)["field:MaxCollectionPointCount"] || ssax.Prov(bo.Y)["field:MaxCollectionPointCount"] {
+			// the comparison itself, or a predicate helper that makes it
+			if ssax.Prov(ifi.Cond)["field:MaxCollectionPointCount"] {
 				// the branch that returns ErrQuotaReached is the "over" edge
 				for e := 0; e < 2; e++ {
 					returnsQuota := false
